@@ -50,7 +50,8 @@ def run(ctx):
   mn, mcall, adef = good[0]
   OPV = u(mcall.args[0])
   key = ast.parse(adef, mode='eval').body.args[0]
-  kd = [def_of(facts[mn.id], e.id) if isinstance(e, ast.Name) else u(e) for e in (key.elts if isinstance(key, ast.Tuple) else [])]
+  from ..lib import expand_expr
+  kd = [u(expand_expr(facts[mn.id], e)) for e in (key.elts if isinstance(key, ast.Tuple) else [])]
   ok = len(kd) == 2 and kd[0] is not None and kd[0].replace(' ', '') == "'/'.join(current_scope())" and \
       kd[1] is not None and '_RENAMED_SELECTORS.get(selector, selector)' in kd[1]
   ctx.check(ok, 'C07.record', con, 'the entry key is (active scope string, current complete selector)',
